@@ -30,6 +30,26 @@ def argsSizesGet (argv : List Bytes) (mem : Mem) (argcPtr sizePtr : Nat) : Out (
   let mem ← i32Store mem sizePtr size
   .val (Gen.WasiPath.errnoSuccess, mem)
 
+/-- args_sizes_get over what the embedder really passed to `wasiInit(argc, argv, …)`: `arr` = the entries of
+    the `argv` array before its first NULL (`none`: `argv` is a NULL pointer), `argc` = `wasi.argc`.
+    The size loop runs over `argvIndex < wasi.argc` or until `wasi.argv[argvIndex] == NULL`, as the
+    regenerated `Gen.WasiPath.argsSizesLoopUsesArgc` says; the count stored is always `wasi.argc`. -/
+def argsSizesGetArr (arr : Option (List Bytes)) (argc : Nat) (mem : Mem) (argcPtr sizePtr : Nat) : Out (Nat × Mem) :=
+  let finish (size : Nat) : Out (Nat × Mem) := do
+    let mem ← i32Store mem argcPtr argc
+    let mem ← i32Store mem sizePtr size
+    .val (Gen.WasiPath.errnoSuccess, mem)
+  if Gen.WasiPath.argsSizesLoopUsesArgc then
+    match arr with
+    | none => if argc = 0 then finish 0 else .ub .nullDeref                 -- wasi.argv[0] with argv == NULL
+    | some a =>
+      if argc ≤ a.length then finish (sizeLoop Gen.WasiPath.argSizeExtra (a.take argc) 0)
+      else .ub .nullDeref                                                   -- strlen(NULL) at the terminator
+  else
+    match arr with
+    | none => .ub .nullDeref                                                -- wasi.argv[0] with argv == NULL
+    | some a => finish (sizeLoop Gen.WasiPath.argSizeExtra a 0)
+
 /-- the loop of wasiArgsGet / wasiEnvironGet:
       size_t length = strlen(arg) + 1;
       memcpy(memory->data + argvBufPointer, arg, length);
@@ -244,6 +264,14 @@ inductive Step (hasExport : Bool) : Sys → Sys → Prop
 inductive Reach (hasExport : Bool) : Sys → Prop
   | init : Reach hasExport Sys.initial
   | step {s s' : Sys} : Reach hasExport s → Step hasExport s s' → Reach hasExport s'
+
+/-- The value a successful thread-spawn returns.  The pinned code returns its LOCAL copy of the id
+    (`threadID = atomic_add_U32(..)` … `return threadID;`).  If instead the ThreadStartArg block is read again
+    after WASM_THREAD_CREATE (`Gen.WasiPath.spawnReturnsLocalId = false`), the new thread — which frees that
+    block first thing — may already have finished: a read of freed memory. -/
+def spawnReturn (threadFinished : Bool) (tid : Nat) : Out Nat :=
+  if Gen.WasiPath.spawnReturnsLocalId then .val tid
+  else if threadFinished then .ub .useAfterFree else .val tid
 
 /-- the thread id a call holds (allocated by its fetch-and-add), if any -/
 def Call.heldId : Call → Option Nat
